@@ -229,8 +229,8 @@ theorem eager_val2 (f : List GoVal → R GoVal) (a b : GoVal) : eager f [.val a,
   simp only [eager, FilterImpl.ofEager, FilterImpl.ofEager.collect, Res.bind]
   cases f [a, b] <;> simp [wrapR]
 
-theorem wrapR_rel {t : Bool} {r r' : R GoVal} (h : RRel t (RepEq false) r r') : RRel t ExRel (wrapR r) (wrapR r') := by
-  cases r <;> cases r' <;> simp only [RRel] at h <;> simp only [wrapR, ret, RRel] <;> exact h
+theorem wrapR_rel {t : Bool} {r r' : R GoVal} (h : RRel t (RepEq false) r r') : RRel t (ExRel false) (wrapR r) (wrapR r') := by
+  cases r <;> cases r' <;> simp only [RRel] at h <;> simp only [wrapR, ret, RRel] <;> first | exact bytesToString_rel h | exact h
 
 theorem lessByKeyM_repEq (key : Bytes) {a a' b b' : GoVal} (ha : RepEq false a a') (hb : RepEq false b b') :
     lessByKeyM key a b = lessByKeyM key a' b' := by
@@ -317,11 +317,11 @@ theorem sortWith_rel {xs xs' : List GoVal} {k k' : GoVal} (hx : NL xs xs') (hk :
   sortWith_rel_gen true hx hk (.inl rfl)
 
 /-- `sort`: the related sorted list, or `unmodelled` on a side where ties are visible -/
-theorem sort_respects : ImplRespects true [.val .anys, .val .any] (eager sort) := by
+theorem sort_respects : ImplRespects true false [.val .anys, .val .any] (eager sort) := by
   intro cs cs' h
   obtain ⟨a, as, a', as', rfl, rfl, h1, h2⟩ := argsRel_cons h
   obtain ⟨k, k', rfl, rfl, hk⟩ := Num.argsRel_any1 h2
-  obtain ⟨c, c', rfl, rfl, xs, xs', rfl, rfl, hx⟩ := argRel_val h1
+  obtain ⟨c, c', rfl, rfl, xs, xs', rfl, rfl, hx, _, _⟩ := argRel_val h1
   rw [eager_val2, eager_val2]
   exact wrapR_rel (sortWith_rel hx hk)
 
@@ -460,11 +460,11 @@ theorem sortNaturalWith_rel_short {xs xs' : List GoVal} {k k' : GoVal} (hx : NL 
     RRel false (RepEq false) (sortNaturalWith true [.slice .any xs, k]) (sortNaturalWith true [.slice .any xs', k']) :=
   sortNaturalWith_rel_gen false hx hk (.inr hlen)
 
-theorem sortNatural_respects : ImplRespects true [.val .anys, .val .any] (eager sortNatural) := by
+theorem sortNatural_respects : ImplRespects true false [.val .anys, .val .any] (eager sortNatural) := by
   intro cs cs' h
   obtain ⟨a, as, a', as', rfl, rfl, h1, h2⟩ := argsRel_cons h
   obtain ⟨k, k', rfl, rfl, hk⟩ := Num.argsRel_any1 h2
-  obtain ⟨c, c', rfl, rfl, xs, xs', rfl, rfl, hx⟩ := argRel_val h1
+  obtain ⟨c, c', rfl, rfl, xs, xs', rfl, rfl, hx, _, _⟩ := argRel_val h1
   rw [eager_val2, eager_val2]
   exact wrapR_rel (sortNaturalWith_rel hx hk)
 
@@ -473,11 +473,11 @@ end ArrF
 /-- every standard filter except those that observe the Go representation (`reprFilters`:
     `json`, `inspect`, `type`; `uniq` included since `fixes/nested-drops-resolved`) respects representation equivalence up to `unmodelled` (`d = false`),
     for every name (registered or not) -/
-theorem filterRespects_std_upto (name : Bytes) (h : name ∉ reprFilters) : FilterRespects true name :=
+theorem filterRespects_std_upto (name : Bytes) (h : name ∉ reprFilters) : FilterRespects true false name :=
   filterRespects_of_impl name (fun sg f hs hf =>
-    goodEntry_table true reprFilters
-      (fun _ => goodEntry_of_sig true ⟨ArrF.bn "sort", [.val .anys, .val .any], false⟩ (by decide +kernel) ArrF.sort_respects)
-      (fun _ => goodEntry_of_sig true ⟨ArrF.bn "sort_natural", [.val .anys, .val .any], false⟩ (by decide +kernel) ArrF.sortNatural_respects)
+    goodEntry_table true false reprFilters
+      (fun _ => goodEntry_of_sig true false ⟨ArrF.bn "sort", [.val .anys, .val .any], false⟩ (by decide +kernel) ArrF.sort_respects)
+      (fun _ => goodEntry_of_sig true false ⟨ArrF.bn "sort_natural", [.val .anys, .val .any], false⟩ (by decide +kernel) ArrF.sortNatural_respects)
       (fun hn => absurd (by simp [reprFilters]) hn)
       (fun hn => absurd (by simp [reprFilters]) hn)
       (fun hn => absurd (by simp [reprFilters]) hn)
